@@ -7,6 +7,12 @@ Requests (whitespace-separated tokens; values/types/targets have a space-free sy
 * `sdef <name> <field>:<ty> …`         struct definition                    → `ok`
 * `fdef <name> <nkeys> <f>:<ty> …`     fact definition (keys first)         → `ok`
 * `glob <name> <value>`                global                               → `ok`
+* `label <name> <LabelType> <addr>`    entry in the label table             → `ok`
+* `adef <name> <param>:<ty> …`         action definition                    → `ok`
+* `cdef <name> <field>:<ty> …`         command definition                   → `ok`
+* `call action <name> <n> <v>×n | policy <this> <envelope> | seal <this> <bytes> | open <this> <bytes> <envelope>`
+  followed by one `S <io answers…>` group per step of the following `run` (fuel = number of groups)
+                                       → `exit …` | `err …` | `fuel` | `panic`
 * `ins <Variant> <operands…>`          append an instruction                → `ok`
 * `push <value>`                       initial stack value                  → `ok` | `err StackOverflow`
 * `step <io answers…>`                 one `RunState::step`                 →
@@ -170,9 +176,12 @@ def wrapType? : String → Option WrapType
 
 def ctx? (s : String) : Option Ctx :=
   match s.splitOn ":" with
-  | ["action"] => some .action
-  | ["policy"] => some .policy
-  | ["recall"] => some .recall
+  | ["action"] => some (.action 0)
+  | ["policy"] => some (.policy 0)
+  | ["recall"] => some (.recall 0)
+  | ["action", n] => (nat? n).map Ctx.action
+  | ["policy", n] => (nat? n).map Ctx.policy
+  | ["recall", n] => (nat? n).map Ctx.recall
   | ["seal", n] => (nat? n).map Ctx.seal
   | ["open", n] => (nat? n).map Ctx.opn
   | _ => none
@@ -299,14 +308,64 @@ structure D where
   m : Machine
   s : RunState
 
-def D.init : D := ⟨⟨[], [], [], []⟩, RunState.init .action⟩
+def emptyMachine : Machine := { progmem := [], globals := [], structDefs := [], factDefs := [] }
+
+def D.init : D := ⟨emptyMachine, RunState.init (.action 0)⟩
 
 def fields? (toks : List String) : Option (List (Nat × Ty)) := toks.mapM field?
+
+def labelType? : String → Option LabelType
+  | "Action" => some .Action | "CommandPolicy" => some .CommandPolicy
+  | "CommandRecall" => some .CommandRecall | "CommandSeal" => some .CommandSeal
+  | "CommandOpen" => some .CommandOpen | "Temporary" => some .Temporary | "Function" => some .Function
+  | _ => none
+
+/-- split at the separator token `S` -/
+def splitS (toks : List String) : List (List String) :=
+  let (cur, acc) := toks.foldl (fun (st : List String × List (List String)) t =>
+    if t == "S" then ([], st.1.reverse :: st.2) else (t :: st.1, st.2)) ([], [])
+  (cur.reverse :: acc).reverse
+
+def struct? (s : String) : Option (Nat × Fields) :=
+  match value? s with
+  | some (.struct n f) => some (n, f)
+  | _ => none
+
+def bytes? (s : String) : Option Nat :=
+  match value? s with
+  | some (.bytes n) => some n
+  | _ => none
+
+def entry? (toks : List String) : Option Entry :=
+  match toks with
+  | "action" :: name :: n :: args => do
+    let name ← nat? name
+    let n ← nat? n
+    let vs ← args.mapM value?
+    if vs.length = n then pure (.action name vs) else none
+  | ["policy", t, e] => do
+    let (tn, tf) ← struct? t
+    let (en, ef) ← struct? e
+    pure (.commandPolicy tn tf en ef)
+  | ["seal", t, p] => do
+    let (tn, tf) ← struct? t
+    pure (.seal tn tf (← bytes? p))
+  | ["open", t, p, e] => do
+    let (tn, tf) ← struct? t
+    let (en, ef) ← struct? e
+    pure (.opn tn tf (← bytes? p) en ef)
+  | _ => none
+
+def showRun (d : D) : RunOutcome → D × String
+  | .exit r s' => ({ d with s := s' }, s!"exit {reasonName r} pc={s'.pc} sp={s'.stack.length} top={topOf s'}")
+  | .machineError e s' => ({ d with s := s' }, s!"err {errName e} pc={s'.pc} sp={s'.stack.length}")
+  | .outOfFuel s' => ({ d with s := s' }, "fuel")
+  | .hostPanic => (d, "panic")
 
 def step (d : D) (toks : List String) : D × String :=
   match toks with
   | ["new", c] => match ctx? c with
-    | some c => (⟨⟨[], [], [], []⟩, RunState.init c⟩, "ok")
+    | some c => (⟨emptyMachine, RunState.init c⟩, "ok")
     | none => (d, "bad-op")
   | "sdef" :: name :: fs => match nat? name, fields? fs with
     | some n, some fs => ({ d with m := { d.m with structDefs := d.m.structDefs ++ [(n, fs)] } }, "ok")
@@ -317,6 +376,23 @@ def step (d : D) (toks : List String) : D × String :=
         ({ d with m := { d.m with factDefs := d.m.factDefs ++ [(n, ⟨fs.take nk, fs.drop nk⟩)] } }, "ok")
       else (d, "bad-op")
     | _, _, _ => (d, "bad-op")
+  | ["label", name, lt, addr] => match nat? name, labelType? lt, nat? addr with
+    | some n, some lt, some a => ({ d with m := { d.m with labels := d.m.labels ++ [((n, lt), a)] } }, "ok")
+    | _, _, _ => (d, "bad-op")
+  | "adef" :: name :: fs => match nat? name, fields? fs with
+    | some n, some fs => ({ d with m := { d.m with actionDefs := d.m.actionDefs ++ [(n, fs)] } }, "ok")
+    | _, _ => (d, "bad-op")
+  | "cdef" :: name :: fs => match nat? name, fields? fs with
+    | some n, some fs => ({ d with m := { d.m with commandDefs := d.m.commandDefs ++ [(n, fs)] } }, "ok")
+    | _, _ => (d, "bad-op")
+  | "call" :: rest =>
+    match splitS rest with
+    | [] => (d, "bad-op")
+    | e :: groups =>
+      match entry? e, groups.mapM (fun g => ioAnswers g []) with
+      | some e, some ios =>
+        showRun d (call d.m (fun k => ios.getD k []) ios.length e d.s)
+      | _, _ => (d, "bad-op")
   | ["glob", name, v] => match nat? name, value? v with
     | some n, some v => ({ d with m := { d.m with globals := d.m.globals ++ [(n, v)] } }, "ok")
     | _, _ => (d, "bad-op")
